@@ -2,10 +2,10 @@ SPECIFICATION Spec
 CONSTANTS
   Budget = 3
   SpaceSize = 4
-  MaxMeas = 2
+  MaxMeas = 1
   Rewards <- PalNP
-  Accs = {1}
-  Steps = {0, 1}
+  Accs = {}
+  Steps = {0}
   Extras = {0}
   MonotoneSteps = TRUE
   Objective = "reward"
